@@ -6,8 +6,10 @@ PROPS["C05"] = dict(
          "death(phase 0..99% of the renewal cycle, after 0..3 renewals): a waiting LockWithCtx acquires not before the ExpiresAt stored at the "
          "moment of death (exact) and within one lease + 2 s of it; unlockrace(renewal in flight parked before/after being applied while Unlock "
          "runs): no record afterwards, <= 1 renewal attempt reaches the storage after Unlock returned, none succeeds, a second tenure of the "
-         "same Locker is held for two leases undisturbed. Batches of 4..8 scenarios run concurrently. lease 300 ms (quick) / 60 ms..1 s (thorough). "
-         "non-trivial = hold with >= 1 injected failure, death, or unlockrace whose renewal really was in flight; distinct = hash of the scenario",
+         "same Locker is held for two leases undisturbed; handoff(first tenure ends at 5..110% of a renewal cycle after 0..2 renewals, the second "
+         "tenure - same Locker or another provider's - starts at once): its record stays present and unexpired for three leases and a "
+         "contender stays excluded. Batches of 4..8 scenarios run concurrently. lease 300 ms (quick) / 60 ms..1 s (thorough). "
+         "non-trivial = hold with >= 1 injected failure, death, handoff, or unlockrace whose renewal really was in flight; distinct = hash of the scenario",
     assumptions=["real clock: a verdict that depends on an upper time bound is confirmed by re-running the scenario with the lease doubled (twice) before it is "
                  "reported; lower bounds (acquired before the stored expiration, record after Unlock) are exact and reported at once",
                  "the lease period is set through the overlay accessor VerifSetLease; storage = in-memory backend behind a per-provider fault wrapper",
